@@ -95,9 +95,16 @@ def shrink(case, check_name):
 
 def report_failure(ctx: C.Ctx, case, first):
     name = first[0]
-    small, hit = shrink(case, name)
-    if hit is None:
-        small, hit = case, first
+    seen = ctx.extra.setdefault("_failure_kinds", {})
+    seen[name] = seen.get(name, 0) + 1
+    if seen[name] > 2:
+        return                      # the same check already has a minimised replay
+    if "AnalysisTimeout" in str(first[2]) or seen[name] > 1 or not ctx.time_left():
+        small, hit = case, first    # every shrinking step could cost a whole time-out
+    else:
+        small, hit = shrink(case, name)
+        if hit is None:
+            small, hit = case, first
     tags = {"check": name.split("@")[0], "boxes_flow_none": small["la"].get("boxes_flow") is None,
             "far": far(small), "glyphs": L.n_glyphs(small)}
     ctx.fail(C.Failure("layout analysis breaks C08: " + name.split("@")[0], small, hit[1], hit[2], tags))
@@ -323,6 +330,12 @@ def replay(ctx: C.Ctx, doc) -> None:
     batch.flush()
 
 
+def finish(ctx: C.Ctx) -> None:
+    kinds = ctx.extra.pop("_failure_kinds", None)
+    if kinds:
+        ctx.extra["failure_kinds"] = kinds
+
+
 def run(ctx: C.Ctx) -> None:
     rng = ctx.rng
     batch = Batch(ctx)
@@ -334,6 +347,9 @@ def run(ctx: C.Ctx) -> None:
         if not ctx.time_left():
             ctx.notes.append("time budget reached after %d generated cases" % i)
             break
+        if sum(1 for f in ctx.failures if "AnalysisTimeout" in str(f.got)) >= 2:
+            ctx.notes.append("stopped generating: the implementation keeps running into the per-page time-out")
+            break
         extreme = i % 8 == 7
         size = big if i % 50 == 49 else rng.choice([3, 6, 12, 25, 40])
         case = L.gen_case(rng, size, extreme=extreme)
@@ -344,3 +360,4 @@ def run(ctx: C.Ctx) -> None:
             batch.flush()
     run_pdf(ctx, batch)
     batch.flush()
+    finish(ctx)
